@@ -2,8 +2,10 @@
 import coqlit as L
 import gen as G
 import conv
+import syntax as SX
 
-COQ_IMPORTS = ['Model.NFA', 'Model.PDA', 'Model.CFG', 'Model.PDAConv', 'Judge.C10_judge']
+COQ_IMPORTS = ['Model.NFA', 'Model.PDA', 'Model.CFG', 'Model.PDAConv', 'Model.FreshName', 'Judge.Common', 'Judge.C10_judge', 'Judge.Extra_judge']
+EXTRA_JUDGES = ['Extra']
 RULE = ('random PDAs (1-3 states, input {a,b}, stack symbols from {x,y,$,@}) with several / one / no accepting states, push, pop, no-op and replace moves, acceptance with a non-empty stack, '
         'stack alphabets that already contain the markers $ and @; pda_to_one_accepting_state_in_place (on a copy), pda_to_push_pop, pda_to_accept_on_empty_stack, pda_to_cfg (every 3rd case, small PDAs); '
         'the fresh state names and the fresh marker chosen by the implementation are recorded (fresh_state / fresh_symbol wrapped in the worker) and replayed in the model. '
@@ -53,12 +55,15 @@ def observe(c):
     from gambatools import pda_algorithms as PA
     from implutil import safe, ok
     P = conv.pda_obj(c['P'])
-    states, symbols = [], []
+    states, symbols, calls = [], [], []
     fs, fsym = PA.fresh_state, PA.fresh_symbol
 
     def w_state(Q, hint='P'):
+        Q0 = sorted(str(q) for q in Q)
         r = fs(Q, hint)
         states.append(str(r))
+        if len(calls) < 6:
+            calls.append([Q0, str(hint), None if r is None else str(r)])
         return r
 
     def w_sym(Sigma, symbols_):
@@ -89,6 +94,7 @@ def observe(c):
             out['cfg'] = None
     finally:
         PA.fresh_state, PA.fresh_symbol = fs, fsym
+    out['fresh_calls'] = calls
     return out
 
 
@@ -141,7 +147,11 @@ def encode(c, o):
         b2 = f(o['cfg']['symbols'][0]) if o['cfg']['symbols'] else (f(p['Gamma'][0]) if p['Gamma'] else f(p['eps']))
         cf = L.pair(_cfg_lit(o['cfg']['res'], st, f), S(o['cfg']['states']), L.nat(b2), L.nat(dummy), L.boolean(o['cfg']['unchanged']))
     assert len(st.m) < 40
-    return 'judge_C10 %s %d %s %s %s %s %s %s' % (lit, c['n'], one, pp, es, cf, L.nats(STREAM), L.boolean(c.get('deep', False)))
+    main = 'judge_C10 %s %d %s %s %s %s %s %s' % (lit, c['n'], one, pp, es, cf, L.nats(STREAM), L.boolean(c.get('deep', False)))
+    # the concrete naming policy of fresh_state (Model/FreshName.v) on the calls the implementation made
+    fresh = ['judge_fresh_state %s %s %s' % (SX.toks(Q0), SX.tok(hint), SX.opt_codes(r)) for Q0, hint, r in o.get('fresh_calls', [])
+             if all(SX.codes(x) is not None for x in Q0 + [hint] + ([r] if r is not None else []))]
+    return 'worst_code [%s]' % '; '.join([main] + fresh)
 
 
 def explain(c):
